@@ -88,6 +88,10 @@ func (k Keeper) SendInflationaryRewards(ctx context.Context, coins sdk.Coins) er
 		return nil
 	}
 	quarter := coins.AmountOf(layer.BondDenom).QuoRaw(4)
+	if quarter.IsZero() {
+		// fewer than 4 loya minted (block gap of 1-2 ms): an empty output is not a valid bank output
+		return k.bankKeeper.SendCoinsFromModuleToModule(ctx, types.ModuleName, types.TimeBasedRewards, coins)
+	}
 	threequarters := coins.AmountOf(layer.BondDenom).Sub(quarter)
 	outputs := []banktypes.Output{
 		{
